@@ -112,7 +112,9 @@ SlotDone(s, sc, c, m) ==
     IF M(sc, c, m).cls = "ok" THEN s.ans[c + 1][m + 1] = "ended" ELSE Reached(s, sc, c, m)
 
 \* does finishing this slot push the shared write buffer out to the client?
-SlotFlushes(x) == x.cls # "ok" \/ x.how \in {"respond", "drop", "panic", "upgrade"} \/ (x.how = "writer" /\ x.wflush)
+\* (a respond() whose own body reader fails returns early, before its flush: like un-flushed raw-writer
+\* bytes, what it wrote is owed only once something later flushes or the connection ends)
+SlotFlushes(x) == x.cls # "ok" \/ (x.how = "respond" /\ ~x.rfail) \/ x.how \in {"drop", "panic", "upgrade"} \/ (x.how = "writer" /\ x.wflush)
 
 \* number of leading slots that are done
 RECURSIVE DonePrefix(_, _, _, _)
@@ -200,7 +202,9 @@ AnsStart(s, sc, e) == [s |-> [s EXCEPT !.ans[e.c + 1][e.m + 1] = "started"], v |
 
 AnsEnd(s, sc, e) ==
     [ s |-> [s EXCEPT !.ans[e.c + 1][e.m + 1] = "ended"],
-      v |-> V(e.ok, (IF s.fault[e.c + 1] # "none" THEN "C15" ELSE "C06"), "AnswerFailed") ]
+      \* the only answer that may fail is the one whose own body reader was planned to fail; that one must
+      \* report it
+      v |-> V(e.ok = ~M(sc, e.c, e.m).rfail, (IF s.fault[e.c + 1] # "none" THEN "C15" ELSE "C06"), "AnswerFailed") ]
 
 \* a response frame parsed by the client
 CFrame(s, sc, e) ==
